@@ -114,7 +114,7 @@ retry:
 			}
 			// TODO: why is this necessary to ensure correct position info?
 			p.readEOF = false
-			if p.openBquotes > 0 && p.bsp < uint(len(p.bs)) &&
+			if p.openBquotes > 0 && p.peek() != utf8.RuneSelf &&
 				((bquotes < p.openBquotes && bquoteEscaped(p.bs[p.bsp])) ||
 					// Backquotes within double quotes also escape double quotes.
 					(bquotes < p.openBquoteDbls && p.bs[p.bsp] == '"')) {
